@@ -90,6 +90,17 @@ def build_harness():
         raise PrepError("harness-build", out)
 
 
+SQLC_BIN = os.path.join(BUILD, "sqlc")
+
+
+def build_sqlc_binary():
+    """the real CLI, built from /repo's working tree (used by C12, C18)"""
+    with Lock("prep"):
+        rc, out = sh(["go", "build", "-o", SQLC_BIN, "./cmd/sqlc"], cwd=REPO, env=GOENV, timeout=1800)
+    if rc != 0:
+        raise PrepError("sqlc-build", out)
+
+
 def run_translator():
     tdir = os.path.join(VERIF, "translator")
     if not os.path.exists(os.path.join(tdir, "main.go")):
